@@ -144,6 +144,10 @@ func (eng *Engine) VerifyFunc(c *FuncContract) (res *FuncResult) {
 			}
 		}
 	}()
+	if msg := resolveNamedLoops(c, fc.fnBody, src.Pkg.TypesInfo); msg != "" {
+		res.Unbound = append(res.Unbound, res.Name+": "+msg)
+		return res
+	}
 	for pass := 1; pass <= 2; pass++ {
 		fc.reset(pass)
 		fc.run()
@@ -345,6 +349,7 @@ func (fc *FnCtx) contractExprAt(st *State, c *Clause, pos token.Pos) Term {
 
 func (fc *FnCtx) contractExprAtWith(st *State, c *Clause, pos token.Pos, extra map[string]Term) Term {
 	ce := fc.cenvAt(st, pos)
+	ce.loopN = c.LoopN
 	for k, v := range extra {
 		ce.names[k] = v
 	}
@@ -380,3 +385,75 @@ func (fc *FnCtx) contractExprAtWith(st *State, c *Clause, pos token.Pos, extra m
 	return ce.boolExpr(c.Expr)
 }
 
+
+// resolveNamedLoops gives ordinals to clauses written `loop assigning(v) ...`: the loop (numbered in source
+// order, outer before inner, as the lowering numbers them) whose own body, not counting nested loops, assigns v.
+func resolveNamedLoops(c *FuncContract, body *ast.BlockStmt, info *types.Info) string {
+	if c.loopsResolved {
+		return ""
+	}
+	var need []*Clause
+	need = append(need, c.NamedLoopClauses...)
+	for _, a := range c.Anchored {
+		if a.LoopVar != "" {
+			need = append(need, a)
+		}
+	}
+	if len(need) == 0 {
+		c.loopsResolved = true
+		return ""
+	}
+	assignedBy := map[string][]int{}
+	n := 0
+	var walk func(node ast.Node, cur int)
+	walk = func(node ast.Node, cur int) {
+		ast.Inspect(node, func(x ast.Node) bool {
+			if x == nil || x == node {
+				return true
+			}
+			switch s := x.(type) {
+			case *ast.FuncLit:
+				return false
+			case *ast.ForStmt:
+				n++
+				me := n
+				if s.Init != nil {
+					walk(s.Init, cur)
+				}
+				if s.Post != nil {
+					walk(s.Post, me)
+				}
+				walk(s.Body, me)
+				return false
+			case *ast.RangeStmt:
+				n++
+				walk(s.Body, n)
+				return false
+			case *ast.AssignStmt:
+				for _, l := range s.Lhs {
+					if id, ok := ast.Unparen(l).(*ast.Ident); ok && cur > 0 {
+						assignedBy[id.Name] = append(assignedBy[id.Name], cur)
+					}
+				}
+			case *ast.IncDecStmt:
+				if id, ok := ast.Unparen(s.X).(*ast.Ident); ok && cur > 0 {
+					assignedBy[id.Name] = append(assignedBy[id.Name], cur)
+				}
+			}
+			return true
+		})
+	}
+	walk(body, 0)
+	for _, cl := range need {
+		loops := assignedBy[cl.LoopVar]
+		if len(loops) == 0 {
+			return "no loop assigns " + cl.LoopVar + " (clause " + cl.Src + ")"
+		}
+		cl.LoopN = loops[0]
+		if cl.AnchorKind == "" {
+			c.Invariants[cl.LoopN] = append(c.Invariants[cl.LoopN], cl)
+		}
+	}
+	c.loopsResolved = true
+	return ""
+}
